@@ -62,22 +62,27 @@ def build_item(item, tmpdir, full=False):
             g = Grammar.from_string(item["text"], recognizers=recs or None)
     except Exception as e:
         return {"grammar": type(e).__name__}
+    def make_table(t):
+        kw = {}
+        if t.get("ld") is not None:
+            kw["lexical_disambiguation"] = t["ld"]
+        return create_table(
+            g,
+            itemset_type=LR_0 if t["tables"] == "SLR" else LR_1,
+            prefer_shifts=t["ps"],
+            prefer_shifts_over_empty=t["pse"],
+            **kw,
+        )
+
+    kept = []
     for ti, t in enumerate(item["tables"]):
         key = f"t{ti}"
         try:
-            kw = {}
-            if t.get("ld") is not None:
-                kw["lexical_disambiguation"] = t["ld"]
-            table = create_table(
-                g,
-                itemset_type=LR_0 if t["tables"] == "SLR" else LR_1,
-                prefer_shifts=t["ps"],
-                prefer_shifts_over_empty=t["pse"],
-                **kw,
-            )
+            table = make_table(t)
         except Exception as e:
             out[key] = {"exc": type(e).__name__}
             continue
+        kept.append((key, t, table))
         ser = json.dumps(table_to_serializable(table), sort_keys=True)
         f = os.path.join(tmpdir, "t.pgc")
         save_table(f, table)
@@ -93,6 +98,17 @@ def build_item(item, tmpdir, full=False):
             d["table_full"] = json.loads(ser)
             d["conflicts_full"] = conf
         out[key] = d
+    # repeated construction in ONE process on the SAME Grammar object: a table
+    # object must not change when other tables are built later, and building
+    # the same configuration again must give the same table
+    for key, t, table in kept:
+        after = sha(json.dumps(table_to_serializable(table), sort_keys=True))
+        try:
+            again = sha(json.dumps(table_to_serializable(make_table(t)), sort_keys=True))
+        except Exception as e:
+            again = type(e).__name__
+        out[key]["same_after_later_builds"] = after == out[key]["table"]
+        out[key]["same_when_built_again"] = again == out[key]["table"]
     if item.get("inputs") and not item.get("file"):
         from parglare.tables import create_table as _ct
 
